@@ -989,6 +989,12 @@ def run(ctx):
         '`Sio.PubSub.DMsg`): modelled, exercised by the correspondence',
         'pickle.loads / json.loads: their results are inputs of the model (computed by the harness itself)',
     ])
+    if ctx.thorough:
+        ok, out = C.leanchecker(['Sio.Props.C15'])
+        ctx.notes.append('leanchecker Sio.Props.C15: %s' % ('ok' if ok else 'FAILED'))
+        if not ok:
+            ctx.violation('proof', 'leanchecker rejected Sio.Props.C15: ' + out, {'theorem_or_build': out},
+                          no_input=True)
     rng = ctx.rng
     n_cases = ctx.scale(1200, 15000)
     deadline = ctx.t0 + ctx.scale(50, 480)
